@@ -66,16 +66,23 @@ TupleConstruct(S, a, b) ==
     /\ InIdx(S, a, b) # {}
     /\ InIdx(S, a, b) \subseteq OutIdx(S, a, b)
 
+\* `known` = construct of a known finding the counterexample falls under ("" = none):
+\*   "tuple-index"    TupleConstruct above
+\*   "orphan-callee"  the call node is linked to a summary that is not in the flow graph's summary table
+\*                    (backtrace creates such a summary on the fly for an unreachable callee, see OrphanCallee)
 F(S, kind, a, b, i, known) ==
     [prog |-> S.prog, seq |-> S.seq, stage |-> S.stage, kind |-> kind, a |-> a, b |-> b, i |-> i, known |-> known]
+
+Tup(b) == IF b THEN "tuple-index" ELSE ""
+OrphanCallee(S, c) == ~Gr(S, Nd(S, c).l).reg
 
 -----------------------------------------------------------------------------
 (* (a)  <<b,i>> \in out[a]  <=>  <<a,i>> \in in[b]                          *)
 EdgeFails(S) ==
     LET O == OutE(S)
         I == InE(S)
-    IN {F(S, "out-edge-not-in-in", e[1], e[2], e[3], TupleConstruct(S, e[1], e[2])) : e \in O \ I}
-       \cup {F(S, "in-edge-not-in-out", e[1], e[2], e[3], FALSE) : e \in I \ O}
+    IN {F(S, "out-edge-not-in-in", e[1], e[2], e[3], Tup(TupleConstruct(S, e[1], e[2]))) : e \in O \ I}
+       \cup {F(S, "in-edge-not-in-out", e[1], e[2], e[3], "") : e \in I \ O}
 
 (* (b)  call node linked to a callee summary <=> registered among that summary's call sites *)
 Registered(S, c) ==      \* some call node of c's site, linked to the same summary, is in the summary's table
@@ -85,9 +92,9 @@ Registered(S, c) ==      \* some call node of c's site, linked to the same summa
         /\ Nd(S, e[2]).k = "call" /\ Nd(S, e[2]).s = nd.s /\ Nd(S, e[2]).l = nd.l
 
 CallFails(S) ==
-    {F(S, "linked-call-not-among-callsites", c, 0, Nd(S, c).l, FALSE) :
+    {F(S, "linked-call-not-among-callsites", c, 0, Nd(S, c).l, IF OrphanCallee(S, c) THEN "orphan-callee" ELSE "") :
         c \in {n \in FullNodes(S) : Nd(S, n).k = "call" /\ Nd(S, n).l # 0 /\ ~Registered(S, n)}}
-    \cup UNION {{F(S, "callsite-entry-not-linked-call", e[2], e[1], g, FALSE) :
+    \cup UNION {{F(S, "callsite-entry-not-linked-call", e[2], e[1], g, "") :
                     e \in {x \in Rng(Gr(S, g).cs) :
                               \/ x[2] = 0
                               \/ Nd(S, x[2]).k # "call" \/ Nd(S, x[2]).s # x[1] \/ Nd(S, x[2]).l # g}}
@@ -96,15 +103,15 @@ CallFails(S) ==
 (* (c)  closure-creation node registered with the closure's summary (and conversely); a bound label whose
         target closure summary is set finds its make-closure in that summary's table *)
 ClosureFails(S) ==
-    {F(S, "closure-not-registered", m, 0, Nd(S, m).l, FALSE) :
+    {F(S, "closure-not-registered", m, 0, Nd(S, m).l, "") :
         m \in {n \in FullNodes(S) : /\ Nd(S, n).k = "closure" /\ Nd(S, n).l # 0
                                     /\ <<Nd(S, n).s, n>> \notin Rng(Gr(S, Nd(S, n).l).ref)}}
-    \cup UNION {{F(S, "referring-entry-not-linked-closure", e[2], e[1], g, FALSE) :
+    \cup UNION {{F(S, "referring-entry-not-linked-closure", e[2], e[1], g, "") :
                     e \in {x \in Rng(Gr(S, g).ref) :
                               \/ x[2] = 0
                               \/ Nd(S, x[2]).k # "closure" \/ Nd(S, x[2]).s # x[1] \/ Nd(S, x[2]).l # g}}
                 : g \in GraphIds(S)}
-    \cup {F(S, "boundlabel-target-not-registered", n, 0, Nd(S, n).l, FALSE) :
+    \cup {F(S, "boundlabel-target-not-registered", n, 0, Nd(S, n).l, "") :
             n \in {x \in FullNodes(S) : /\ Nd(S, x).k = "boundlabel" /\ Nd(S, x).l # 0 /\ Nd(S, x).m # 0
                                         /\ ~\E e \in Rng(Gr(S, Nd(S, x).l).ref) : e[1] = Nd(S, x).m}}
 
@@ -115,13 +122,13 @@ GlobalFails(S) ==
         R(x) == Rng(S.globals[x].r)
         Acc  == {n \in FullNodes(S) : Nd(S, n).k = "global" /\ Nd(S, n).gl # 0}
         IsAcc(n, x, wr) == /\ n # 0 /\ Nd(S, n).k = "global" /\ Nd(S, n).gl = x /\ Nd(S, n).w = wr /\ Built(S, n)
-    IN {F(S, "write-node-not-in-write-set", n, 0, Nd(S, n).gl, FALSE) :
+    IN {F(S, "write-node-not-in-write-set", n, 0, Nd(S, n).gl, "") :
             n \in {x \in Acc : Nd(S, x).w /\ Built(S, x) /\ x \notin W(Nd(S, x).gl)}}
-       \cup {F(S, "read-node-with-out-edges-not-in-read-set", n, 0, Nd(S, n).gl, FALSE) :
+       \cup {F(S, "read-node-with-out-edges-not-in-read-set", n, 0, Nd(S, n).gl, "") :
             n \in {x \in Acc : ~Nd(S, x).w /\ Built(S, x) /\ Len(Nd(S, x).o) > 0 /\ x \notin R(Nd(S, x).gl)}}
-       \cup UNION {{F(S, "write-set-has-other-than-built-write-node", n, 0, x, FALSE) :
+       \cup UNION {{F(S, "write-set-has-other-than-built-write-node", n, 0, x, "") :
                         n \in {y \in W(x) : ~IsAcc(y, x, TRUE)}} : x \in 1 .. Len(S.globals)}
-       \cup UNION {{F(S, "read-set-has-other-than-built-read-node", n, 0, x, FALSE) :
+       \cup UNION {{F(S, "read-set-has-other-than-built-read-node", n, 0, x, "") :
                         n \in {y \in R(x) : ~IsAcc(y, x, FALSE)}} : x \in 1 .. Len(S.globals)}
 
 -----------------------------------------------------------------------------
@@ -190,11 +197,11 @@ ReachFails(S) ==
                pb == Reach(S, "PB", s)
            IN (IF rf # rb
                THEN {F(S, "forward-closure-differs", s, Witness(rf, rb), Cardinality(rf) - Cardinality(rb),
-                       Reach(S, "R", s) = rf)}
+                       Tup(Reach(S, "R", s) = rf))}
                ELSE {})
               \cup
               (IF pf # pb
-               THEN {F(S, "backward-closure-differs", s, Witness(pf, pb), Cardinality(pf) - Cardinality(pb), FALSE)}
+               THEN {F(S, "backward-closure-differs", s, Witness(pf, pb), Cardinality(pf) - Cardinality(pb), "")}
                ELSE {})
            : s \in Rng(S.starts)}
 
@@ -202,8 +209,8 @@ ReachFails(S) ==
 ReindexFails(S) ==
     LET RO == UNION {{<<e[1], n, e[2]>> : e \in Rng(Nd(S, n).ro)} : n \in NodeIds(S)}
         RI == UNION {{<<n, e[1], e[2]>> : e \in Rng(Nd(S, n).ri)} : n \in NodeIds(S)}
-    IN (IF RO # OutE(S) THEN {F(S, "harness-reindex-out", 0, 0, 0, FALSE)} ELSE {})
-       \cup (IF RI # InE(S) THEN {F(S, "harness-reindex-in", 0, 0, 0, FALSE)} ELSE {})
+    IN (IF RO # OutE(S) THEN {F(S, "harness-reindex-out", 0, 0, 0, "")} ELSE {})
+       \cup (IF RI # InE(S) THEN {F(S, "harness-reindex-in", 0, 0, 0, "")} ELSE {})
 
 Fails(S) == EdgeFails(S) \cup CallFails(S) \cup ClosureFails(S) \cup GlobalFails(S) \cup ReachFails(S)
             \cup ReindexFails(S)
